@@ -186,6 +186,17 @@ class Repo:
                     ch._module = c._module  # type: ignore[attr-defined]
                     ch._qual = f"{cq}.{name}"  # type: ignore[attr-defined]
                     return cq, ch
+                # `meth = OtherClass.meth` in the class body: the method is shared
+                if isinstance(ch, ast.Assign) and len(ch.targets) == 1 and isinstance(ch.targets[0], ast.Name) and ch.targets[0].id == name and isinstance(ch.value, ast.Attribute):
+                    owner = self.resolve_expr(c._module, ch.value.value)  # type: ignore[attr-defined]
+                    if owner and owner != cq and self.has(owner):
+                        try:
+                            self.cls(owner)
+                        except AnchorMissing:
+                            continue
+                        r = self.method(owner, ch.value.attr)
+                        if r is not None:
+                            return r
         return None
 
     def mro(self, cls_qual: str) -> list[str]:
